@@ -101,7 +101,20 @@ def eval_f32(t, x):
     return None
 
 
-def check(ctx):
+def include_endpoints(ctx, rule):
+    """C13/R1-R3 under another property's rule id"""
+    before, nn = len(ctx.obs), len(ctx.notes)
+    check(ctx, inversion=False)
+    del ctx.notes[nn:]
+    for o in ctx.obs[before:]:
+        o["key"] = o["key"].replace("%s/%s/" % (ctx.prop, o["rule"]), "%s/%s/%s/" % (ctx.prop, rule, o["rule"].lower()), 1)
+        o["rule"] = rule
+
+
+def check(ctx, inversion=True):
+    """inversion=False leaves out R4 (the x -> t inversion, known finding F7): what remains decides that every built-in
+    easing is the identity or one Bezier segment from (0,0) to (1,1) evaluated at the caller's x, and that the evaluation
+    maps 0 to 0 and 1 to 1 exactly - the part other properties (no jump at a blend, exact keyframe values) rest on"""
     F = ctx.facts
     calc = F.one(crate="mina_core", name="calc", impl_self_adt=EASING, impl_trait=EF)
     eng = pse.Engine(F, inline=lambda fn, b: fn.get("krate") not in ("lyon_geom",) and "lyon_geom::" not in b["path"])
@@ -253,6 +266,8 @@ def check(ctx):
                calc["span"], what="endpoint-not-exact")
     ctx.extra["endpoints_decided_for"] = n3
 
+    if not inversion:
+        return
     # R4: the curve parameter must come from an x -> t inversion, not be the horizontal input itself (F7)
     cbcalc = F.one(crate="mina_core", name="calc", impl_self_adt=CBE, impl_trait=EF)
     eng4 = pse.Engine(F, inline=lambda fn, b: fn.get("krate") != "lyon_geom")
